@@ -388,7 +388,8 @@ func (dcc *dataConditionsContainer) finalize(r *Reader, queryPartIndex int, prev
 					content := ""
 					if v.SubQuery == "" {
 						//TODO: maybe extract the regex for this variable
-						content = ".*"
+						// (the variable may hold any bytes, also line breaks)
+						content = "(?s:.*)"
 						isPrecondition = true
 					} else {
 						psq := possibleSubQueries[v.SubQuery]
